@@ -6,7 +6,8 @@ it returns is one of the two window bounds.)
 -/
 namespace Clemens
 
-/-- the range the static evaluation certainly stays in: C15 (`eval_bounded_explicit`) proves `|eval| ≤ 15145` for legal material -/
+/-- the range the static evaluation certainly stays in: C15 (`eval_bounded_explicit`) proves `|eval| ≤ evalBound` for legal material,
+and `evalBound ≤ 20000` is a `decide`d fact about the current tuning constants (`evalBound_le_20000`, `Proofs/EvalConsts.lean`) -/
 def EvalRange (v : Int) : Prop := -20000 ≤ v ∧ v ≤ 20000
 
 namespace BadWin
@@ -22,8 +23,9 @@ theorem evalrange_neg {v : Int} (h : EvalRange v) : EvalRange (w16 (-v)) := by
   unfold EvalRange w16 at *; omega
 
 theorem evalrange_contempt (p : Pos) : EvalRange (contempt p) := by
-  unfold EvalRange contempt
-  split <;> omega
+  have := contempt_small p
+  unfold EvalRange
+  omega
 
 theorem post_and {α} {P Q : α → Prop} {m : SM α} (h1 : Post P m) (h2 : Post Q m) : Post (fun a => P a ∧ Q a) m :=
   fun s a s' hs => ⟨h1 s a s' hs, h2 s a s' hs⟩
